@@ -26,19 +26,30 @@ from ..models import lifecycle as M
 
 DT = 1.0
 O = 2  # neurons per population
-ISZ = {"c0": 3, "c1": 2, "feedfwd": 3, "lateral": O, "feedback": O}
-TOPO = {
-    "bi21": (["c0", "c1"], ["n0"]),
-    "bi12": (["c0"], ["n0", "n1"]),
-    "bi22": (["c0", "c1"], ["n0", "n1"]),
-    "rec": (["feedfwd", "lateral", "feedback"], ["feedfwd", "feedback"]),
+ISZ = {"c0": 3, "c1": 2, "feedfwd": 3, "lateral": O, "feedback": O, "serial": 3}
+KINDS = {  # layer kind -> (connections, neurons, cells), LOCAL names; consecutive cells share a population
+    "bi21": (["c0", "c1"], ["n0"], [("c0", "n0"), ("c1", "n0")]),
+    "bi12": (["c0"], ["n0", "n1"], [("c0", "n0"), ("c0", "n1")]),
+    "bi22": (["c0", "c1"], ["n0", "n1"], [("c0", "n0"), ("c1", "n0"), ("c1", "n1"), ("c0", "n1")]),
+    "rec": (["feedfwd", "lateral", "feedback"], ["feedfwd", "feedback"],
+            [("feedfwd", "feedfwd"), ("feedback", "feedfwd"), ("lateral", "feedback")]),
+    "ser": (["serial"], ["serial"], [("serial", "serial")]),
 }
-CELLS = {
-    "bi21": [("c0", "n0"), ("c1", "n0")],
-    "bi12": [("c0", "n0"), ("c0", "n1")],
-    "bi22": [("c0", "n0"), ("c1", "n0"), ("c1", "n1"), ("c0", "n1")],
-    "rec": [("feedfwd", "feedfwd"), ("feedback", "feedfwd"), ("lateral", "feedback")],
+LAYERS = {  # topology -> layers (name, kind); two-layer topologies reuse the same component names
+    "bi21": [("A", "bi21")], "bi12": [("A", "bi12")], "bi22": [("A", "bi22")], "rec": [("A", "rec")],
+    "ser2": [("A", "ser"), ("B", "ser")], "bi21x2": [("A", "bi21"), ("B", "bi21")],
 }
+LOC = {}  # global component name -> (layer name, local name)
+TOPO, CELLS = {}, {}
+for _t, _ls in LAYERS.items():
+    _c, _n, _k = [], [], []
+    for _l, _kind in _ls:
+        for x in KINDS[_kind][0] + KINDS[_kind][1]:
+            LOC[f"{_l}_{x}"] = (_l, x)
+        _c += [f"{_l}_{x}" for x in KINDS[_kind][0]]
+        _n += [f"{_l}_{x}" for x in KINDS[_kind][1]]
+        _k += [(f"{_l}_{a}", f"{_l}_{b}") for a, b in KINDS[_kind][2]]
+    TOPO[_t], CELLS[_t] = (_c, _n), _k
 TTYPES = ["STDP", "MSTDP", "MSTDPET", "TripletSTDP", "KernelSTDP", "LinearHomeostasis", "DelayAdjustedSTDP"]
 PROBE_NAMES = ["p0", "p1"]
 
@@ -61,15 +72,16 @@ def _neuron(B):
     return ExactNeuron((O,), DT, rest_v=-60.0, thresh_v=-45.0, batch_size=B)
 
 
-def _build_layer(topo, B, delayed):
-    from inferno.neural import Biclique, RecurrentSerial
+def _build_layer(kind, B, delayed):
+    from inferno.neural import Biclique, RecurrentSerial, Serial
 
-    torch.manual_seed(1234)
-    conns, neurons = TOPO[topo]
-    if topo == "rec":
+    conns, neurons, _ = KINDS[kind]
+    if kind == "rec":
         return RecurrentSerial(
             _connection(ISZ["feedfwd"], O, B, delayed), _connection(O, O, B, delayed),
             _connection(O, O, B, delayed), _neuron(B), _neuron(B), trainable_feedback=True)
+    if kind == "ser":
+        return Serial(_connection(ISZ["serial"], O, B, delayed), _neuron(B))
     return Biclique([(c, _connection(ISZ[c], O, B, delayed)) for c in conns],
                     [(n, _neuron(B)) for n in neurons])
 
@@ -114,25 +126,28 @@ class Impl:
         self.topo = case["topo"]
         self.B = case["B"]
         self.delayed = case["delayed"]
-        self.layer = _build_layer(self.topo, self.B, self.delayed)
+        torch.manual_seed(1234)
+        self.layers = {l: _build_layer(kind, self.B, self.delayed) for l, kind in LAYERS[self.topo]}
         self.trainers = {}
-        self.held = {}  # (idx, cname, mname) -> strong reference kept by the "user"
+        self.held = {}  # (idx, cname, mname, uid) -> strong reference kept by the "user"
         self.refs = {}  # uid -> weakref of the implementation object
         self.pre_attr = "synapse.spike" if self.delayed else "connection.synspike"
 
     def cell(self, key):
-        return self.layer.get_cell(*key)
+        (l, c), (_, n) = LOC[key[0]], LOC[key[1]]
+        return self.layers[l].get_cell(c, n)
 
-    def connection(self, name):
-        return self.layer.get_connection(name)
+    def connection(self, g):
+        l, c = LOC[g]
+        return self.layers[l].get_connection(c)
 
 
 # ---------------------------------------------------------------------------- step data
 
 
-def _decode(case_topo, B, bits):
-    """bits -> {source: bool array}; fixed layout, consecutive bits."""
-    conns, neurons = TOPO[case_topo]
+def _decode(kind, B, bits):
+    """bits -> {(kind, local name): bool array}; fixed layout, consecutive bits."""
+    conns, neurons, _ = KINDS[kind]
     out, off = {}, 0
 
     def take(shape):
@@ -144,7 +159,7 @@ def _decode(case_topo, B, bits):
 
     for n in neurons:
         out[("n", n)] = take((B, O))
-    if case_topo == "rec":
+    if kind == "rec":
         out[("c", "feedfwd")] = take((B, ISZ["feedfwd"]))
     else:
         for c in conns:
@@ -212,11 +227,11 @@ def _freeze_heap():
 
 def _compare(ctx: Ctx):
     w, im, what = ctx.world, ctx.impl, ctx.what
-    layer = im.layer
-    with impl(f"layer.training after {what}"):
-        lt = layer.training
-    check(lt == w.layer_training, "mode:layer", lambda: f"{what}: layer.training {lt}", ctx)
-    attached_total = 0
+    for lname, layer in im.layers.items():
+        with impl(f"layer.training after {what}"):
+            lt = layer.training
+        check(lt == w.layer_training[lname], "mode:layer", lambda: f"{what}: layer {lname}.training {lt}", ctx)
+    attached = dict.fromkeys(im.layers, 0)
     for idx, tm in w.trainers.items():
         tr = im.trainers[idx]
         check(tr.training == tm.training, "mode:trainer", lambda: f"{what}: trainer{idx}.training {tr.training}", ctx)
@@ -277,7 +292,7 @@ def _compare(ctx: Ctx):
             check(reg == mm.attached, "monitor:attached",
                   lambda: f"{what}: trainer{idx} monitor {tm.holders(mm)} registered={reg}, expected {mm.attached} "
                           f"(trainer.training={tm.training})", (ctx, {"mkind": mm.kind}))
-            attached_total += 1 if mm.attached else 0
+            attached[mm.layer] += 1 if mm.attached else 0
             with impl(f"monitor.dump/peek after {what}"):
                 d = obj.dump()
                 p = obj.peek()
@@ -305,9 +320,10 @@ def _compare(ctx: Ctx):
                   lambda: f"{what}: monitor {key[:3]} was deleted from the pool but is still registered on the layer", ctx)
 
     # ---- hook handles on the layer: exactly one per attached monitor of a live trainer
-    nh = len(layer._forward_hooks) + len(layer._forward_pre_hooks)
-    check(nh == attached_total, "hooks:count",
-          lambda: f"{what}: layer has {nh} forward hook handles, {attached_total} monitors should be attached", ctx)
+    for lname, layer in im.layers.items():
+        nh = len(layer._forward_hooks) + len(layer._forward_pre_hooks)
+        check(nh == attached[lname], "hooks:count",
+              lambda: f"{what}: layer {lname} has {nh} forward hook handles, {attached[lname]} monitors should be attached", ctx)
 
 
 def _check_collected(ctx: Ctx):
@@ -344,7 +360,7 @@ def _register(ctx, idx, key, hp):
     for s in M.trainer_monitors(tm.ttype, hp, DT, key[0], key[1]):
         sib = (e,) + tuple(s["sib"]) if s["sib"] else None
         mon, how = w.add_monitor(idx, cname, s["name"], s["source"], s["kind"], s["p"], s["cap"],
-                                 s["unique"], s["tags"], sib)
+                                 s["unique"], s["tags"], sib, layer=LOC[key[0]][0])
         if how == "alias" and mon.uid in shared_before and mon.nobs_total:
             late = True
     if late:
@@ -445,7 +461,7 @@ def _apply(ctx: Ctx, op):
         with impl(ctx.what):
             obj = im.trainers[idx].add_monitor(cname, pname, attr, ctor, unique, k=k, g=g)
         mon, how = w.add_monitor(idx, cname, pname, source, "pass", {"dt": DT}, k + 1, unique,
-                                 {"k": k, "g": g, "attr": attr})
+                                 {"k": k, "g": g, "attr": attr}, layer=LOC[e.cellkey[0]][0])
         with impl(ctx.what):
             got = im.trainers[idx].get_monitor(cname, pname)
         check(obj is got, "listing:get_monitor", lambda: f"{ctx.what}: add_monitor returned an object that is not get_monitor()", ctx)
@@ -491,11 +507,12 @@ def _apply(ctx: Ctx, op):
         w.set_trainer_mode(idx, mode)
     elif name == "lmode":
         mode = (op[1] % 3) != 0
-        if mode != w.layer_training:
+        lname = list(im.layers)[(op[1] // 3) % len(im.layers)]
+        if mode != w.layer_training[lname]:
             st_["mode_switch"] += 1
         with impl(ctx.what):
-            im.layer.train(mode)
-        w.layer_training = mode
+            im.layers[lname].train(mode)
+        w.layer_training[lname] = mode
     elif name == "step":
         _step(ctx, op[1])
     elif name == "tstep":
@@ -514,7 +531,8 @@ def _apply(ctx: Ctx, op):
         st_["clears"] += 1
     elif name == "lclear":
         with impl(ctx.what):
-            im.layer.clear()
+            for layer in im.layers.values():
+                layer.clear()
         ctx.feedback_prev = None
     elif name == "drop":
         if len(live) < 2 and not case["allow_drop_last"]:
@@ -546,41 +564,48 @@ def _apply(ctx: Ctx, op):
 
 
 def _step(ctx: Ctx, bits):
+    """One network step: every layer is stepped once (layer k with its own scripted data)."""
     w, im, case = ctx.world, ctx.impl, ctx.case
-    topo, B = case["topo"], case["B"]
-    data = _decode(topo, B, bits)
-    layer = im.layer
+    B = case["B"]
+    nobs = 0
 
     def tt(a):
         return torch.tensor(a)
 
-    if topo == "rec":
-        prev = ctx.feedback_prev if ctx.feedback_prev is not None else np.zeros((B, O), dtype=bool)
-        data[("c", "lateral")] = data[("n", "feedfwd")]
-        data[("c", "feedback")] = prev
-        with impl(ctx.what):
-            out = layer(tt(data[("c", "feedfwd")]),
-                        feedfwd_neuron_kwargs={"override": tt(data[("n", "feedfwd")])},
-                        feedback_neuron_kwargs={"override": tt(data[("n", "feedback")])})
-        ctx.feedback_prev = data[("n", "feedback")]
-        outs = {"feedfwd": out[0], "feedback": out[1]}
-    else:
-        conns, neurons = TOPO[topo]
-        with impl(ctx.what):
-            outs = layer({c: (tt(data[("c", c)]),) for c in conns},
-                         neuron_kwargs={n: {"override": tt(data[("n", n)])} for n in neurons})
-    # harness self-check (not C15's subject): the scripted data is what the layer exposes
-    for (kind, nm), a in data.items():
-        if kind == "n":
-            got = _np(outs[nm]) != 0
-            if got.shape != a.shape or not np.array_equal(got, a):
-                raise RuntimeError(f"harness: neuron {nm} output {got.tolist()} != scripted {a.tolist()}")
+    for k, (lname, kind) in enumerate(LAYERS[case["topo"]]):
+        layer = im.layers[lname]
+        data = _decode(kind, B, bits ^ (k * 0x2D5A5))
+        if kind == "rec":
+            prev = ctx.feedback_prev if ctx.feedback_prev is not None else np.zeros((B, O), dtype=bool)
+            data[("c", "lateral")] = data[("n", "feedfwd")]
+            data[("c", "feedback")] = prev
+            with impl(ctx.what):
+                out = layer(tt(data[("c", "feedfwd")]),
+                            feedfwd_neuron_kwargs={"override": tt(data[("n", "feedfwd")])},
+                            feedback_neuron_kwargs={"override": tt(data[("n", "feedback")])})
+            ctx.feedback_prev = data[("n", "feedback")]
+            outs = {"feedfwd": out[0], "feedback": out[1]}
+        elif kind == "ser":
+            with impl(ctx.what):
+                out = layer(tt(data[("c", "serial")]), neuron_kwargs={"override": tt(data[("n", "serial")])})
+            outs = {"serial": out}
         else:
-            conn = im.connection(nm)
-            got = _np(conn.synapse.spike if im.delayed else conn.synspike) != 0
-            if got.shape != a.shape or not np.array_equal(got, a):
-                raise RuntimeError(f"harness: connection {nm} presynaptic spikes {got.tolist()} != scripted {a.tolist()}")
-    nobs = w.step(data)
+            conns, neurons, _ = KINDS[kind]
+            with impl(ctx.what):
+                outs = layer({c: (tt(data[("c", c)]),) for c in conns},
+                             neuron_kwargs={n: {"override": tt(data[("n", n)])} for n in neurons})
+        # harness self-check (not C15's subject): the scripted data is what the layer exposes
+        for (ck, nm), a in data.items():
+            if ck == "n":
+                got = _np(outs[nm]) != 0
+                if got.shape != a.shape or not np.array_equal(got, a):
+                    raise RuntimeError(f"harness: neuron {nm} output {got.tolist()} != scripted {a.tolist()}")
+            else:
+                conn = layer.get_connection(nm)
+                got = _np(conn.synapse.spike if im.delayed else conn.synspike) != 0
+                if got.shape != a.shape or not np.array_equal(got, a):
+                    raise RuntimeError(f"harness: connection {nm} presynaptic spikes {got.tolist()} != scripted {a.tolist()}")
+        nobs += w.step({(ck, f"{lname}_{nm}"): a for (ck, nm), a in data.items()}, lname)
     ctx.stats["obs"] += nobs
     if nobs:
         ctx.stats["train_steps"] += 1
@@ -629,9 +654,9 @@ def _trainer_step(ctx: Ctx, idx, sig):
         else:
             tr()
     after = _acc_state(im)
-    active = tm.training and w.layer_training
     param = "bias" if tm.ttype == "LinearHomeostasis" else "weight"
-    touched = {(e.cellkey[0], param) for e in tm.cells.values()} if active else set()
+    act = [e for e in tm.cells.values() if tm.training and w.layer_training[LOC[e.cellkey[0]][0]]]
+    touched = {(e.cellkey[0], param) for e in act}
     for key in after:
         nb = len(before[key][0]) + len(before[key][1])
         na = len(after[key][0]) + len(after[key][1])
@@ -645,9 +670,9 @@ def _trainer_step(ctx: Ctx, idx, sig):
                 check(np.array_equal(a, b, equal_nan=True), "tstep:foreign",
                       lambda: f"{ctx.what}: trainer{idx} rewrote an already accumulated part of {key}", ctx)
     ctx.stats["tstep"] += 1
-    if tm.ttype == "STDP" and active:
+    if tm.ttype == "STDP" and act:
         want = {}
-        for e in tm.cells.values():
+        for e in act:
             pos, neg = M.stdp_update(e)
             want.setdefault(e.cellkey[0], ([], []))
             if pos is not None:
@@ -671,7 +696,8 @@ def _update(ctx: Ctx, idx):
     pbefore = _params(im)
     if idx is None:
         with impl(ctx.what + " [layer.update]"):
-            im.layer.update()
+            for layer in im.layers.values():
+                layer.update()
         applied = set(TOPO[im.topo][0])
     else:
         with impl(ctx.what + " [trainer.update]"):
@@ -691,7 +717,9 @@ def _update(ctx: Ctx, idx):
                 want = want + part
             for part in bneg:
                 want = want - part
-            check(_close(delta, want), "update:value",
+            scale = max(1.0, float(np.abs(pbefore[cname][pi]).max()), float(np.abs(pafter[cname][pi]).max()))
+            ok = delta.shape == want.shape and np.allclose(delta, want, rtol=1e-4, atol=4e-6 * scale)  # float32 parameters
+            check(ok, "update:value",
                   lambda: f"{ctx.what}: {cname}.{p} changed by {np.round(delta, 5).tolist()}, accumulated update was "
                           f"{np.round(want, 5).tolist()}", ctx)
             if idx is None:  # Layer.update(clear=True)
@@ -712,6 +740,7 @@ def run_lifecycle(case):
     with impl("construct layer"):
         ctx.impl = Impl(case)
     im, w = ctx.impl, ctx.world
+    w.layer_training = {l: True for l in im.layers}
     for idx, ttype in enumerate(case["trainers"]):
         with impl(f"construct trainer {ttype}"):
             im.trainers[idx] = _build_trainer(ttype)
@@ -781,7 +810,7 @@ _STRUCT = {"reg", "delc", "addm", "delm", "tmode", "lmode", "clear", "drop", "ne
 
 @st.composite
 def lifecycle_case(draw, tier="quick"):
-    topo = draw(st.sampled_from(["bi21", "bi21", "bi12", "bi22", "rec"]))
+    topo = draw(st.sampled_from(["bi21", "bi21", "bi12", "bi12", "bi22", "bi22", "rec", "rec", "ser2", "bi21x2"]))
     B = draw(st.sampled_from([1, 2]))
     delayed = draw(st.integers(0, 5)) == 0
     if delayed:
@@ -810,15 +839,16 @@ def lifecycle_case(draw, tier="quick"):
             ops.append(["reg", t0 + 1, first + draw(st.integers(0, 1)), draw(st.sampled_from([0, 0, 1]))])
             ops.append(["step", bits()])
     blocks = []
-    if chance(5):  # a pooled probe on two cells
+    probes = chance(5)
+    if probes:  # a pooled probe on two cells
         c, nm, at, k, g = draw(_raw), draw(_raw), draw(_raw), draw(_raw), draw(_raw)
         blocks.append([["addm", t0, c, nm, at, k, 1, g, draw(_raw)], ["addm", t0, c + 1, nm, at, k, 1, g, 1],
                        ["step", bits()]])
     early = None
     if chance(9):  # ... delete one of them, then step (in training mode unless the body switched it off)
-        d = ["delc", t0, draw(_raw)] if chance(6) else ["delm", t0, draw(_raw)]
+        d = ["delm", t0, draw(_raw)] if (probes and chance(5)) else ["delc", t0, draw(_raw)]
         blk = [d, ["step", bits()], ["tstep", t0, draw(_raw)]]
-        if chance(4):
+        if chance(4) and d[0] == "delc":
             early = blk  # right after the registrations, before the body can switch modes
         else:
             blocks.append(blk)
@@ -853,7 +883,7 @@ LEGS = [
         name="lifecycle",
         run=run_lifecycle,
         strategy=lambda tier: lifecycle_case(tier),
-        quick=300, thorough=3000, quick_shards=8, thorough_shards=16, nt_floor=0.3,
+        quick=300, thorough=2000, quick_shards=8, thorough_shards=16, nt_floor=0.3,
         rule="operation sequence in which, at some point, two cells of one trainer hold the same pooled monitor "
              "object, >= 1 cell/monitor deletion is followed by >= 1 layer step that is recorded (trainer and layer "
              "training) by a surviving monitor, >= 1 train/eval switch of trainer or layer, >= 2 recorded steps; "
